@@ -68,6 +68,11 @@ def Ptr.diff : Ptr → Ptr → Option Nat
   | .mk b1 o1, .mk b2 o2 => if b1 = b2 ∧ o2 ≤ o1 then some (o1 - o2) else none
   | _, _ => none
 
+/-- `p < q` (pointers into the same block) -/
+def Ptr.lt : Ptr → Ptr → Option Bool
+  | .mk b1 o1, .mk b2 o2 => if b1 = b2 then some (decide (o1 < o2)) else none
+  | _, _ => none
+
 /-- the bytes from `p` to the end of its block -/
 def Env.view (E : Env) : Ptr → Option (List Nat)
   | .null => none
